@@ -274,3 +274,6 @@ def run(chk):
     chk.guard("R4", lambda: r4_ok_wrap(chk))
     chk.guard("R5", lambda: r5_into_vs_existing(chk))
     chk.guard("R6", lambda: r6_assign_only(chk))
+    from .c12 import import_parse_contracts
+    chk.guard("R8", lambda: import_parse_contracts(chk, "R8"))
+
